@@ -77,6 +77,9 @@ class SymCtx(BaseCtx):
         v = S.SR.var(name)
         if name not in self.inputs:
             self.inputs[name] = (v, lo, hi)
+        if lo is not None and lo >= 0 and self.pinned is None:
+            (m, _c), = v.p.items()
+            S.ST.nonneg_atoms.add(m[0][0])      # |x| = x structurally for inputs bounded below by 0
         add = self.eng.add_def
         if self.pinned is not None:
             add(v.z == S.zval(Fraction(float(self.pinned[name]))))
